@@ -27,6 +27,27 @@ SPECS = [
       f"sum_i digit_i 2^({c}i) over msm_serial's {32 // c + 1} windows equals the scalar",
       F, "all 2^32 four-byte scalars", f"get_booth_index:telescoping:c{c}", est=40, timeout={"quick": 200, "thorough": 900})
     for c in TELE_C
+] + [
+    H(f"c12::batch_add_p13_n{n}", f"C12.K.batch_add.p13.n{n}",
+      f"batch_add with {n} live schedule point(s): every bucket ends as (old bucket) +/- base by the textbook affine group law "
+      "(add, doubling with either sign, P+(-P), untouched/identity buckets, shared batch inversion)",
+      ["curves/src/msm.rs::batch_add", "curves/src/msm.rs::BucketAffine", "curves/src/msm.rs::Affine"],
+      "every point of the toy curve y^2 = x^3 + 2 over F_13 (19 points) for 2 bases and max(n,2) buckets, all signs/indices", f"batch_add:group-law:n{n}",
+      tiers=("quick", "thorough") if n < 3 else ("thorough",), est=30, timeout={"quick": 300, "thorough": 1200})
+    for n in (1, 2, 3)
+] + [
+    H("c12::batch_add_p31_n2", "C12.K.batch_add.p31.n2",
+      "batch_add with 2 live schedule points equals the textbook affine group law on a second toy curve",
+      ["curves/src/msm.rs::batch_add"], "every point of y^2 = x^3 + 3 over F_31 (43 points)", "batch_add:group-law:p31", tiers=("thorough",),
+      est=60, timeout=900),
+] + [
+    H(f"c12::schedule_p13_ops{k}", f"C12.K.schedule.p13.ops{k}",
+      f"Schedule driven as msm_best drives it (contains / add / execute) for {k} points into 2 buckets: an empty bucket takes the point, a non-empty one gets a pending entry, "
+      "after the flush bucket + diverted points = sum of the points sent to it",
+      ["curves/src/msm.rs::Schedule::add", "curves/src/msm.rs::Schedule::execute", "curves/src/msm.rs::Schedule::contains", "curves/src/msm.rs::BucketAffine::assign",
+       "curves/src/msm.rs::batch_add"], f"every point of the toy curve over F_13, 2 bases, 2 buckets, {k} operations, all signs/indices", f"Schedule:group-law:ops{k}",
+      tiers=("quick", "thorough") if k < 3 else ("thorough",), est=40, timeout={"quick": 300, "thorough": 1200})
+    for k in (2, 3)
 ]
 
 
@@ -34,7 +55,11 @@ def check(run):
     run.bounds.append("K/C12: window sizes 1..=16, every window index the two MSM loops can pass, ALL scalar bytes; telescoping for c in %s" % (TELE_C,))
     run.outside += [
         "K/C12: window-size selection `ln(n).ceil()` and the thread chunking of msm_parallel are inlined in generic functions (no callable helper; f64 ln is not modelled by CBMC)",
-        "K/C12: `bitreverse` is a nested fn of best_fft (not callable; the FFT as a linear map is engine S's obligation); bucket accumulation, batch_add, Schedule (group arithmetic)",
+        "K/C12: batch_add / Schedule are decided on TOY curves (y^2=x^3+2 over F_13, y^2=x^3+3 over F_31; odd group order, so no point with y=0: the code divides by 2y). "
+        "The code is generic in C: CurveAffine and only uses C::Base field operations, so genericity is what transfers the statement to BLS12-381; the toy field is the bound. "
+        "Preconditions taken from the callers: scheduled buckets are non-identity and pairwise distinct within a batch, bases are never the identity",
+        "K/C12: the flush-when-full path of Schedule::add (64 pending entries need 64 distinct non-empty buckets), the Jacobian `Bucket` accumulation and the window summation of msm_best (projective group ops)",
+        "K/C12: `bitreverse` is a nested fn of best_fft (not callable; the FFT as a linear map is engine S's obligation); the serial bucket accumulation of msm_serial (group arithmetic)",
         "K/C12: the full 256-bit telescoping identity follows from the per-window definition (proved for all scalars) by the algebra written in c12.rs; it is machine-checked here for 32-bit scalars only",
     ]
     kani.run_harnesses(run, CRATE, SPECS)
